@@ -267,6 +267,8 @@ def run(prog: Program) -> Results:
                     f"_primitive_cls_from_value, NixList.rebuild.<render_item>, ...)")
     from sa.rules.c01 import no_greedy_strip
     no_greedy_strip(prog, res, "R-C13-6")
+    from sa.rules.c12 import one_bare_name_language
+    one_bare_name_language(prog, res, "R-C13-7")
     res.assumptions = ["Nix float grammar: a float literal needs a dot; list elements admit only select-level expressions"]
     return res
 
